@@ -5,9 +5,12 @@ Line protocol for K_C11.
   new <fallback|race> <lookup:0|1> <srvFail:0|1>
   addrReply <valid|noAddr|noPort> | connectOk <0|1> | connectRefused | connectTimeout | pierce | cannotConnect
     | indirectTimeout | cancelRequest
+  note <d:CONNECTING|d:CONNECTED|d:INIT|d:CLOSING|d:CLOSED|a:CONNECTED|a:INIT|a:CLOSING|a:CLOSED|w:CLOSING|w:CLOSED>
+  show                                                       -> the current state again
   selectPort <prefer:0|1> <port> <obfuscatedPort>            -> `<port> <0|1>`
-Answer: `res=<pending|D|I|raised|cancelled> reg=<d,i> tw=<0|1> rw=<0|1> aw=<0|1> open=<d,i> ctp=<0|1> init=<0|1>`
-(`ctp`: ConnectToPeer reached the server; `init`: PeerInit reached the peer) or `rejected` / `bad-op`.
+Answer: `res=<pending|D|I|raised|cancelled> reg=<d,i> tw=<0|1> rw=<0|1> aw=<0|1> open=<d,i> ctp=<0|1> init=<0|1>
+held=<labels>` (`ctp`: ConnectToPeer reached the server; `init`: PeerInit reached the peer; `held`: the notifications
+whose listeners have not returned) or `rejected` / `bad-op`.
 -/
 open AioslskVerif.PeerConnect
 
@@ -16,13 +19,34 @@ def b01 (b : Bool) : String := if b then "1" else "0"
 def showRes : Res → String
   | .pending => "pending" | .returnedD => "D" | .returnedI => "I" | .raised => "raised" | .cancelled => "cancelled"
 
+def heldD : DPh → List String
+  | .nConnecting => ["d:CONNECTING"] | .nConnectedOk | .nConnectedBad => ["d:CONNECTED"] | .nInit => ["d:INIT"]
+  | .fClosing | .cClosing => ["d:CLOSING"] | .fClosed | .cClosed => ["d:CLOSED"] | _ => []
+
+def heldA : APh → List String
+  | .none => [] | .nConnected => ["a:CONNECTED"] | .nInit => ["a:INIT"] | .nClosing => ["a:CLOSING"]
+  | .nClosed => ["a:CLOSED"]
+
+def heldW : IPh → List String
+  | .wClosing => ["w:CLOSING"] | .wClosed => ["w:CLOSED"] | _ => []
+
 def snapshot (s : S) : String :=
-  let reg := (if s.dc ≠ .none then ["d"] else []) ++ (if s.ic then ["i"] else [])
-  let op := (if s.dc = .open then ["d"] else []) ++ (if s.ic then ["i"] else [])
-  s!"res={showRes s.res} reg={",".intercalate reg} tw={b01 s.tw} rw={b01 s.rw} aw={b01 s.aw} open={",".intercalate op} ctp={b01 (s.i ≠ .notStarted && !s.srvFail)} init={b01 (s.d = .ok)}"
+  let aReg := s.a = .nInit ∨ s.a = .nClosing
+  let aOpen := s.a = .nConnected ∨ aReg
+  let reg := (if s.dc ≠ .none then ["d"] else []) ++ (if s.ic then ["i"] else []) ++ (if aReg then ["i"] else [])
+  let op := (if s.dc = .open then ["d"] else []) ++ (if s.ic then ["i"] else []) ++ (if aOpen then ["i"] else [])
+  let held := heldA s.a ++ heldD s.d ++ heldW s.i
+  s!"res={showRes s.res} reg={",".intercalate reg} tw={b01 s.tw} rw={b01 s.rw} aw={b01 s.aw} open={",".intercalate op} ctp={b01 (s.i ≠ .notStarted && !s.srvFail)} init={b01 s.ps} held={",".intercalate held}"
 
 def parseBool : String → Option Bool
   | "0" => some false | "1" => some true | _ => none
+
+def parseNote : String → Option Note
+  | "d:CONNECTING" => some .dConnecting | "d:CONNECTED" => some .dConnected | "d:INIT" => some .dInit
+  | "d:CLOSING" => some .dClosing | "d:CLOSED" => some .dClosed
+  | "a:CONNECTED" => some .aConnected | "a:INIT" => some .aInit | "a:CLOSING" => some .aClosing
+  | "a:CLOSED" => some .aClosed | "w:CLOSING" => some .wClosing | "w:CLOSED" => some .wClosed
+  | _ => none
 
 def parseOp : List String → Option Op
   | ["addrReply", "valid"] => some (.addrReply .valid)
@@ -35,6 +59,7 @@ def parseOp : List String → Option Op
   | ["cannotConnect"] => some .cannotConnect
   | ["indirectTimeout"] => some .indirectTimeout
   | ["cancelRequest"] => some .cancelRequest
+  | ["note", n] => (parseNote n).map .note
   | _ => none
 
 def handle (s : Option S) (line : String) : Option S × String :=
@@ -47,6 +72,10 @@ def handle (s : Option S) (line : String) : Option S × String :=
     match parseBool p, a.toNat?, b.toNat? with
     | some p, some a, some b => let (port, o) := selectPort p a b; (s, s!"{port} {b01 o}")
     | _, _, _ => (s, "bad-op")
+  | ["show"] =>
+    match s with
+    | some st => (s, snapshot st)
+    | none => (s, "bad-op")
   | toks =>
     match s, parseOp toks with
     | some st, some op =>
